@@ -35,15 +35,16 @@ BIN_SIZES = [0.01, 0.02, 0.05, 0.1, 0.2, 0.25, 0.5, 1.0]
 EPSS = [1e-6, 1e-5, 1e-4, 1e-3, 1e-2, 0.1]
 
 SCOPE = {
-    'quick': 'PWMs 4 x w; (a) exhaustive over a library of 9 column types (uniform, 4 one-hot, two-zero, one-zero, '
-             'skewed, near-uniform) for every w <= 2 and every (bin, eps) in {0.1, 0.5, 1} x {1e-4, 0.1}; (b) seeded '
-             'random PWMs (Dirichlet conc. 0.05-5, zero entries, uniform / one-hot / repeated columns mixed in), '
-             'w = 1..7 checked against brute-force enumeration of all 4^w sequences AND the big-int counting '
-             'recurrence, w = 8..30 against the recurrence; bin sizes {0.01,0.02,0.05,0.1,0.2,0.25,0.5,1} and '
-             'uniform random in [0.01, 1]; eps in {1e-6..0.1}; every entry of every returned table compared; '
-             '(c) fimo() p-value column on random sequences with N for w = 1..8, threshold 0.5/0.1/0.01, both strands',
-    'thorough': 'as quick with (a) every w <= 3 and all 8 x 6 (bin, eps) pairs, (b) several thousand random PWMs, '
-                'every w in 1..30, (c) several hundred fimo() runs, w = 1..12',
+    'quick': 'float64 PWMs 4 x w (columns sum to 1); (a) exhaustive over a library of 9 column types (uniform, 4 one-hot, '
+             'two-zero, one-zero, skewed, near-uniform): every PWM of width 1 and 2 x all 48 (bin, eps) pairs of '
+             '{0.01,0.02,0.05,0.1,0.2,0.25,0.5,1} x {1e-6,1e-5,1e-4,1e-3,1e-2,0.1}, every PWM of width 3 x 6 pairs; '
+             '(b) seeded random PWMs (Dirichlet conc. 0.05-50, zero entries, uniform / one-hot / repeated columns mixed in): '
+             '500 of width 1..7 checked against brute-force enumeration of all 4^w sequences AND the big-int counting '
+             'recurrence, 300 of width 8..30 against the recurrence; bin sizes as above or uniform random in [0.01, 1]; '
+             'every entry of every returned table compared; (c) p-value column of 150 fimo() runs (1-3 motifs of width '
+             '1..8, 1-3 random sequences of length 20-60 with N, threshold 0.5/0.1/0.01, both strands)',
+    'thorough': 'as quick with (a) widths 1-3 x all 48 pairs and width 4 x 6 pairs, (b) up to 6000 + 4000 random PWMs, '
+                '(c) up to 1500 fimo() runs with widths 1..12 (each part bounded by its share of the 10 min budget)',
 }
 
 
@@ -81,7 +82,7 @@ def pmf_counts(ints):
         col = [ints[k][i] for k in range(n)]
         cmin, cmax = min(col), max(col)
         new = numpy.zeros(len(cur) + cmax - cmin, dtype=object)
-        new[:] = 0
+        new[:] = 0                      # Python ints, arbitrary precision
         for v in col:
             d = v - cmin
             new[d:d + len(cur)] += cur
@@ -382,7 +383,7 @@ def run(rep):
     # (a) exhaustive over the column library ------------------------------------------------
     all_pairs = [(b, e) for b in BIN_SIZES for e in EPSS]
     few_pairs = [(b, e) for b in (0.1, 0.5, 1.0) for e in (1e-4, 0.1)]
-    plan = [(1, all_pairs), (2, all_pairs), (3, all_pairs if thorough else few_pairs)]
+    plan = [(1, all_pairs), (2, all_pairs), (3, all_pairs if thorough else few_pairs)] + ([(4, few_pairs)] if thorough else [])
     t_end = time.time() + budget * 0.30
     for w, pairs in plan:
         done = True
